@@ -561,8 +561,31 @@ func runWireCase(raw json.RawMessage, w *TraceWriter) {
 			"tid", tidOf(o.err), "srcerr", wrapsSource(o.err, src.endErr()), "panic", o.panicd)
 		br.Recycle()
 		rd.Release(nil)
+		// the same through somebody else's bufiox.Reader implementation (a tracing wrapper), right after a BufferReader over
+		// the library's own reader went back to the pool: nothing of the previous reader may be consulted
+		if si < 2 {
+			src2 := &dataSource{data: in, chunks: sh.chunks, wd: sh.wd, fail: sh.fail}
+			rd2 := &fwdReader{r: bufiox.NewDefaultReader(src2)}
+			br2 := thrift.NewBufferReader(rd2)
+			o2 := decodeStream(c.Kind, in, br2)
+			w.Ev("dec", "api", "stream", "kind", c.Kind, "frag", sh.name+"+foreign-reader", "in", inJSON, "ok", o2.ok, "n", o2.n, "used", rd2.ReadLen(), "val", Raw(o2.val),
+				"tid", tidOf(o2.err), "srcerr", wrapsSource(o2.err, src2.endErr()), "panic", o2.panicd)
+			br2.Recycle()
+			rd2.Release(nil)
+		}
 	}
 }
+
+// fwdReader is a bufiox.Reader of the harness' own type that forwards to a real one (what a tracing or metering wrapper
+// in an application looks like): code that special-cases the library's concrete reader types must not trip over it.
+type fwdReader struct{ r bufiox.Reader }
+
+func (f *fwdReader) Next(n int) ([]byte, error)       { return f.r.Next(n) }
+func (f *fwdReader) ReadBinary(b []byte) (int, error) { return f.r.ReadBinary(b) }
+func (f *fwdReader) Peek(n int) ([]byte, error)       { return f.r.Peek(n) }
+func (f *fwdReader) Skip(n int) error                 { return f.r.Skip(n) }
+func (f *fwdReader) ReadLen() int                     { return f.r.ReadLen() }
+func (f *fwdReader) Release(e error) error            { return f.r.Release(e) }
 
 // silentEncode produces the library's own in-place encoding without recording events (raw material for mutation).
 func silentEncode(c *WireCase) []byte {
